@@ -19,7 +19,6 @@
 # IN THE SOFTWARE.
 import json
 import os
-import shutil
 import subprocess
 import sys
 from collections.abc import Mapping
@@ -252,12 +251,20 @@ class _FilePersistence(_ConcretePersistence):
 
         try:
             if current_runs:
-                with NamedTemporaryFile("w", delete=False) as target:
-                    # pylint: disable-next=unspecified-encoding
-                    with open(self._data_filename, "r") as data_file:
-                        self._process_lines(data_file, current_runs, target)
-                    os.unlink(self._data_filename)
-                    shutil.move(target.name, self._data_filename)
+                # the filtered copy is written next to the data file and closed, before it
+                # replaces the data file in one step
+                data_dir = os.path.dirname(os.path.abspath(self._data_filename))
+                # pylint: disable-next=consider-using-with
+                target = NamedTemporaryFile("w", delete=False, dir=data_dir)
+                try:
+                    with target:
+                        # pylint: disable-next=unspecified-encoding
+                        with open(self._data_filename, "r") as data_file:
+                            self._process_lines(data_file, current_runs, target)
+                    os.replace(target.name, self._data_filename)
+                finally:
+                    if os.path.exists(target.name):
+                        os.unlink(target.name)
             else:
                 # pylint: disable-next=unspecified-encoding
                 with open(self._data_filename, "r") as data_file:
